@@ -48,6 +48,7 @@ struct _thpool {
 };
 
 static void *thpool_thread(void *thpool);
+static int join_thread(void *userptr, void *data);
 static int wait_pool(m_thpool_t *pool, thpool_shutdown_t shutdown);
 static inline bool has_space(m_thpool_t *pool);
 static int add_threads(m_thpool_t *pool, int num);
@@ -99,6 +100,13 @@ static void *thpool_thread(void *thpool) {
     return NULL;
 }
 
+static int join_thread(void *userptr, void *data) {
+    int *ret = (int *)userptr;
+    pthread_t *th = (pthread_t *)data;
+    *ret += pthread_join(*th, NULL);
+    return 0;
+}
+
 static int wait_pool(m_thpool_t *pool, thpool_shutdown_t shutdown) {
     int ret = pthread_mutex_lock(&pool->lock);
     if (ret) {
@@ -118,11 +126,10 @@ static int wait_pool(m_thpool_t *pool, thpool_shutdown_t shutdown) {
     ret += pthread_mutex_unlock(&pool->lock);
     if (ret == 0) {
         if (!(pool->flags & M_THPOOL_DETACHED)) {
-            /* Join all worker threads */
-            m_itr_foreach(pool->threads, {
-                pthread_t *th = m_itr_get(m_itr);
-                ret += pthread_join(*th, NULL);
-            });
+            /* Join all worker threads; no iterator here: shutdown must not depend upon memory being available */
+            if (m_list_len(pool->threads) > 0) {
+                m_list_iterate(pool->threads, join_thread, &ret);
+            }
         }
         if (ret == 0) {
             /* There are no active threads anymore */
